@@ -25,7 +25,7 @@ RULE = (
     "symmetry part; evaluations = expressions judged + operand pairs judged; distinct_nontrivial = distinct expressions with at least one finite inferred bound."
 )
 ASSUMPTIONS = ["division only by non-zero constants", "soundness is sampled at corner/extreme points, not proved"]
-BOUNDS = {"quick": dict(n=640, per=8, cap=40), "thorough": dict(n=16000, per=12, cap=96)}
+BOUNDS = {"quick": dict(n=640, per=8, cap=40), "thorough": dict(n=48000, per=12, cap=96)}
 
 WORLD = {
     "name": "c15",
